@@ -797,7 +797,7 @@ class ListenerItem(ListenerBase):
             tl_handler,
             name,
             remove=remove,
-            dispatch=self.dispatch,
+            dispatch="extended",
             priority=self.priority,
             target=self._get_target(),
         )
@@ -806,7 +806,7 @@ class ListenerItem(ListenerBase):
             tl_handler_items,
             name + "_items",
             remove=remove,
-            dispatch=self.dispatch,
+            dispatch="extended",
             priority=self.priority,
             target=self._get_target(),
         )
